@@ -20,12 +20,14 @@ import (
 //
 // input = ( n<store> ( n<v1> ) ( op ... ) ( ( n<inv> n<ret> ) ... ) ( n<opidx> ... ) )
 //    op = ( n<tid> n<kind> ( n<id> ... ) n<phase> )
-// obs   = ( ( result ... ) ( n<id> ... ) n<indexok> n<race> n<crashed> b<report> )
+// obs   = ( ( result ... ) ( n<id> ... ) n<indexok> n<race> n<crashed> b<report> ( n<cbcount> ... ) )
+// opts  = ( n<v1> [ ( n<once> ... ) ] )   -- the OnPut callbacks of a deferred-writer workload
 
 type concWork struct {
 	Store int
 	V1    int
 	Ops   []cOp
+	Cbs   []int // deferred writer: OnPut callbacks registered up front (1 once-only, 0 persistent)
 }
 
 // concRun is what one execution of a workload showed.
@@ -37,10 +39,12 @@ type concRun struct {
 	Race    int
 	Crashed int
 	Report  []byte
+	Cb      []uint64 // invocations of the OnPut callbacks of the workload
 	// filled in by concJudge
 	Witness []int
 	Found   bool
 	GaveUp  bool
+	CbBad   bool
 }
 
 const concReportMax = 3000
@@ -60,6 +64,7 @@ type concWorkJ struct {
 	V1    int       `json:"v1"`
 	Path  string    `json:"path"`
 	Ops   []concOpJ `json:"ops"`
+	Cbs   []int     `json:"cbs,omitempty"`
 }
 
 type concResJ struct {
@@ -77,6 +82,7 @@ type concOutJ struct {
 	IndexOK int         `json:"indexok"`
 	Crashed int         `json:"crashed"`
 	Msg     string      `json:"msg"`
+	Cb      []uint64    `json:"cb"`
 }
 
 func (r concResJ) result() cResult {
@@ -233,7 +239,7 @@ func concFirstRace(lines []string) (string, bool) {
 }
 
 func concDeadRun(w concWork, seg *concSegment, why string) concRun {
-	r := concRun{Crashed: 1, Final: []uint64{}}
+	r := concRun{Crashed: 1, Final: []uint64{}, Cb: make([]uint64, len(w.Cbs))}
 	for range w.Ops {
 		r.Results = append(r.Results, cResult{Tag: rPanic})
 		r.Hist = append(r.Hist, [2]uint64{})
@@ -294,7 +300,7 @@ func concRunBatch(work string, ws []concWork) []concRun {
 		}
 		var stdin bytes.Buffer
 		for n := next; n < len(ws); n++ {
-			wj := concWorkJ{N: n, Store: ws[n].Store, V1: ws[n].V1, Path: path(n)}
+			wj := concWorkJ{N: n, Store: ws[n].Store, V1: ws[n].V1, Path: path(n), Cbs: ws[n].Cbs}
 			for _, o := range ws[n].Ops {
 				ids := o.Ids
 				if ids == nil {
@@ -335,7 +341,7 @@ func concRunBatch(work string, ws []concWork) []concRun {
 			w := ws[next]
 			o, seg := outs[next], segs[next]
 			if o != nil && seg != nil && seg.ended && len(o.Res) == len(w.Ops) && len(o.Hist) == len(w.Ops) {
-				r := concRun{Hist: o.Hist, Final: o.Final, IndexOK: o.IndexOK, Crashed: o.Crashed, Report: []byte{}}
+				r := concRun{Hist: o.Hist, Final: o.Final, IndexOK: o.IndexOK, Crashed: o.Crashed, Report: []byte{}, Cb: o.Cb}
 				if r.Final == nil {
 					r.Final = []uint64{}
 				}
@@ -386,11 +392,36 @@ func concJudge(w concWork, r *concRun) {
 		return
 	}
 	r.Witness, r.Found, r.GaveUp = linearize(w.Store, w.V1, w.Ops, r.Hist, r.Results, r.Final)
+	r.CbBad = !cbCountsOK(w, r)
+}
+
+// cbCountsOK: a once-only OnPut callback fired exactly once if any Put succeeded (else never), a
+// persistent one exactly once per successful Put (same rule as RunConc.cb_expected).
+func cbCountsOK(w concWork, r *concRun) bool {
+	if len(r.Cb) != len(w.Cbs) {
+		return false
+	}
+	var oks uint64
+	for i, o := range w.Ops {
+		if o.Kind == cPut && i < len(r.Results) && r.Results[i].Tag == rOK {
+			oks++
+		}
+	}
+	for i, once := range w.Cbs {
+		want := oks
+		if once != 0 && want > 1 {
+			want = 1
+		}
+		if r.Cb[i] != want {
+			return false
+		}
+	}
+	return true
 }
 
 // concFailed: does the run show a violation (race, crash, no witness, bad final file)?
 func concFailed(r *concRun) bool {
-	return r.Race != 0 || r.Crashed != 0 || !r.Found || r.IndexOK != 1
+	return r.Race != 0 || r.Crashed != 0 || !r.Found || r.IndexOK != 1 || r.CbBad
 }
 
 // ---- Val conversion ----
@@ -414,7 +445,15 @@ func concInputVal(w concWork, r *concRun) Val {
 			wit = append(wit, VN(i))
 		}
 	}
-	return VL{VN(w.Store), VL{VN(w.V1)}, ops, hist, wit}
+	opts := VL{VN(w.V1)}
+	if len(w.Cbs) > 0 {
+		cbs := VL{}
+		for _, once := range w.Cbs {
+			cbs = append(cbs, VN(once))
+		}
+		opts = append(opts, cbs)
+	}
+	return VL{VN(w.Store), opts, ops, hist, wit}
 }
 
 func concObsVal(r *concRun) Val {
@@ -430,7 +469,11 @@ func concObsVal(r *concRun) Val {
 	if rep == nil {
 		rep = []byte{}
 	}
-	return VL{res, fin, VN(r.IndexOK), VN(r.Race), VN(r.Crashed), VB(rep)}
+	cb := VL{}
+	for _, n := range r.Cb {
+		cb = append(cb, VN(n))
+	}
+	return VL{res, fin, VN(r.IndexOK), VN(r.Race), VN(r.Crashed), VB(rep), cb}
 }
 
 // concParseInput recovers the workload part (store, options, ops) of a recorded input.
@@ -444,6 +487,11 @@ func concParseInput(in Val) (w concWork, err error) {
 	w.Store = int(l[0].(VN))
 	if o := l[1].(VL); len(o) > 0 {
 		w.V1 = int(o[0].(VN))
+		if len(o) > 1 {
+			for _, once := range o[1].(VL) {
+				w.Cbs = append(w.Cbs, int(once.(VN)))
+			}
+		}
 	}
 	for _, ov := range l[2].(VL) {
 		ol := ov.(VL)
